@@ -103,6 +103,7 @@ class ParseContext:
         self.table_infos = {}
         self.parser_macros_plugins = {}
         self.random_references = []
+        self.inclusion_stack = []  # the files whose include_file lines are being followed
 
     def line_num(self, obj=None) -> Dict:
         if not obj:
@@ -618,9 +619,18 @@ def parse_included_file(
         raise exc.DataGenError(
             f"Cannot load include file {inclusion_path}", **linenum._asdict()
         )
-    with inclusion_path.open() as f:
-        incl_objects = parse_file(f, context)
-        return incl_objects
+    including, included = parent_path.resolve(), inclusion_path.resolve()
+    if included == including or included in context.inclusion_stack:
+        raise exc.DataGenError(
+            f"Include file {inclusion_path} includes itself", **linenum._asdict()
+        )
+    context.inclusion_stack.append(including)
+    try:
+        with inclusion_path.open() as f:
+            incl_objects = parse_file(f, context)
+            return incl_objects
+    finally:
+        context.inclusion_stack.pop()
 
 
 def parse_included_files(path: Path, data: List, context: ParseContext):
